@@ -31,6 +31,8 @@ def main():
            "stderr_file": fd_target(2),
            # each runner gives the tool its own HOME / TMPDIR: reported so that an expansion the tool ASKED for
            # (shellQuote: false on $HOME, ~) can be compared up to their values
+           # names only: what else the process inherited (the oracle does not judge it, see design/notes/C30.md)
+           "other_env_names": sorted(b2s(os.fsencode(k)) for k in os.environ if not k.startswith("C30_")),
            "home": b2s(os.fsencode(os.environ.get("HOME", ""))), "tmpdir": b2s(os.fsencode(os.environ.get("TMPDIR", "")))}
     with open("c30_dump.json", "w") as f:
         json.dump(out, f)
